@@ -105,7 +105,7 @@ def scenario_class(o):
             hd.get("end", {}).get("how"), cl.get("rej"), cl.get("cut"), hd.get("fault"),
             (o.get("cl") or {}).get("end", {}).get("code"),
             tuple(cl.get("hdrs", [])), tuple(hd.get("hdrs", [])), tuple(hd.get("end", {}).get("trl", [])), hd.get("end", {}).get("style"),
-            hd.get("clen"), hd.get("ct"), hd.get("exit"), hd.get("status"), cl.get("clen"),
+            hd.get("clen"), hd.get("ct"), hd.get("exit"), hd.get("status"), cl.get("clen"), o.get("note"),
             tuple(f.get("fault") for f in cl.get("frames", [])), tuple(f.get("fault") for f in hd.get("frames", [])))
 
 
